@@ -111,6 +111,8 @@ pub fn docs(tier: Tier) -> Vec<Doc> {
   for pi in 0..3 {
     let gaps = PROGRAMS[pi].len() + 1;
     for g in 0..gaps { for e in 0..PROSE.len() { v.push(Doc::Prose(pi, vec![(g, e)])); } }
+    // tight placements (prose index + 1000): the prose element on the line directly under a statement, no blank line in between
+    for g in 1..gaps { for e in 0..PROSE.len() { v.push(Doc::Prose(pi, vec![(g, e + 1000)])); } }
     // every placement of two prose elements (ordered within a gap)
     if pi == 0 || tier == Tier::Thorough {
       for g1 in 0..gaps { for e1 in 0..PROSE.len() { for g2 in g1..gaps { for e2 in 0..PROSE.len() {
@@ -135,7 +137,7 @@ pub fn render(d: &Doc) -> (String, String) {
       let stmts = PROGRAMS[*pi];
       let mut blocks: Vec<String> = vec![];
       for g in 0..=stmts.len() {
-        for (gg, e) in ins { if *gg == g { blocks.push(PROSE[*e].1.to_string()); } }
+        for (gg, e) in ins { if *gg == g { if *e >= 1000 { if let Some(last) = blocks.last_mut() { last.push('\n'); last.push_str(PROSE[*e - 1000].1); } } else { blocks.push(PROSE[*e].1.to_string()); } } }
         if g < stmts.len() { blocks.push(stmts[g].to_string()); }
       }
       (blocks.join("\n\n"), stmts.join("\n\n"))
@@ -197,7 +199,7 @@ impl UnitRunner for C10 {
       let case = doc.replace('\n', " ⏎ ");
       match d {
         Doc::Prose(_pi, ins) => {
-          let locus = ins.iter().map(|(_, e)| PROSE[*e].0).collect::<Vec<_>>().join("+");
+          let locus = ins.iter().map(|(_, e)| if *e >= 1000 { format!("{}:directly-under-code", PROSE[*e - 1000].0) } else { PROSE[*e].0.to_string() }).collect::<Vec<_>>().join("+");
           let (di, dok) = match interpret_doc(&doc) { Ok(x) => x, Err(e) if e == "parse" => { out.count("document_unparsable"); out.set("unparsable_prose", &locus); continue; } Err(e) => { out.fail(format!("C10|panic|{}", locus), case, e); continue; } };
           let (ci, _) = match interpret_doc(&code_only) { Ok(x) => x, Err(_) => continue };
           out.nontrivial += 1;
